@@ -281,8 +281,14 @@ def _create_parameter_converters(
   def create_input_converter(
       pc: vz.ParameterConfig,
   ) -> converters.DefaultModelInputConverter:
+    # float64: parameter bounds are doubles, and bounds outside the float32
+    # range would otherwise scale to inf/NaN and be dropped from suggestions.
     return converters.DefaultModelInputConverter(
-        pc, scale=True, max_discrete_indices=0, onehot_embed=True
+        pc,
+        scale=True,
+        max_discrete_indices=0,
+        onehot_embed=True,
+        float_dtype=np.float64,
     )
 
   return [create_input_converter(pc) for pc in search_space.parameters]
